@@ -46,6 +46,8 @@ pub struct Outcome {
     pub judged: u64,
     /// judgements skipped as undecidable (ties, margins)
     pub undecided: u64,
+    /// judgements attributed to a listed open finding by its exact signature (not judged, counted)
+    pub excluded_known: u64,
 }
 
 impl Outcome {
@@ -280,6 +282,7 @@ impl Stats {
         self.evals += 1;
         self.judged += o.judged;
         self.undecided += o.undecided;
+        self.excluded_known += o.excluded_known;
         for c in &o.classes {
             *self.classes.entry(c).or_insert(0) += 1;
         }
